@@ -31,6 +31,9 @@ func (g *deepcopyGen) GenerateType(c gengo.Context, named *types.Named) error {
 }
 
 func (g *deepcopyGen) generateType(c gengo.Context, named *types.Named) error {
+	// a field of an instantiated generic type depends on the methods of the generic type itself
+	named = named.Origin()
+
 	if _, ok := g.processed[named]; ok {
 		return nil
 	}
@@ -122,7 +125,7 @@ func(in *@Type) DeepCopyInto(out *@Type) {
 					if g.required == nil {
 						g.required = map[*types.Named]bool{}
 					}
-					g.required[named] = true
+					g.required[named.Origin()] = true
 					defers = append(defers, named)
 				},
 			},
